@@ -60,7 +60,7 @@ try:
     dst = os.path.join(VER, "seeded", name)
     os.makedirs(dst, exist_ok=True)
     for f in ("patch.diff", "demo.py", "notes.md"):
-        if os.path.exists(os.path.join(sdir, f)):
+        if os.path.exists(os.path.join(sdir, f)) and os.path.realpath(sdir) != os.path.realpath(dst):
             shutil.copy(os.path.join(sdir, f), os.path.join(dst, f))
     json.dump(meta, open(os.path.join(dst, "meta.json"), "w"), indent=1)
     print(json.dumps({k: meta[k] for k in ("name", "confirmed", "detected", "check_exit", "check_wall_s", "check_violation_lines")}))
